@@ -2,6 +2,8 @@
 
 package replicator
 
+import "time"
+
 // VerifStats is a snapshot of the replicator's bookkeeping, exposed only to the
 // verification harness (build tag verif).
 type VerifStats struct {
@@ -40,4 +42,13 @@ func VerifStatsOf(rep Replicator) (VerifStats, bool) {
 	r.muBuffer.Unlock()
 
 	return st, true
+}
+
+// VerifSetFetchTimeout shortens the bound on the fetch of one entry so that the
+// harness can observe fetches that time out; it returns the previous value.
+func VerifSetFetchTimeout(d time.Duration) time.Duration {
+	old := fetchTimeout
+	fetchTimeout = d
+
+	return old
 }
